@@ -2,6 +2,7 @@ import RscelModel.Driver.Wire
 import RscelModel.Model.Conv
 import RscelModel.Model.WF
 import RscelModel.Driver.AstJson
+import RscelModel.Driver.SqlCmd
 open Rscel
 
 def handle (line : String) : String :=
@@ -54,6 +55,8 @@ def handle (line : String) : String :=
       match Wire.parseVal args with
       | some (.code c, _) => wfDiag c
       | _ => "bad-request"
+    else if cmd == "sql" || cmd == "sqltext" then
+      (Wire.handleSql cmd args).getD "bad-request"
     else
     match Wire.handleValOp cmd args with
     | some r => r
